@@ -3,6 +3,7 @@
 //   P <text>    parse_XTA(text, builder, newxta=true, S_EXPRESSION) -> kind tree | REJECT <msg> | SEMERR <msg> <tree>
 //   Q <text>    additionally: str() of the tree, re-parse, equal(), second str()   (used by C03)
 #include "common.hpp"
+#include "utap/statement.h"
 
 using namespace UTAP;
 using namespace UTAP::Constants;
@@ -50,6 +51,78 @@ static std::string ktree(const expression_t& e)
     return os.str();
 }
 
+// --- the same expression inside other syntactic contexts (op X): the tree must not depend on the context -------------
+static const char* CTX_DECLS = R"(
+int a, b, c, d, e, i, j, k;
+int arr[4]; int mat[3][3];
+bool p, q;
+double x, y;
+clock cl;
+typedef struct { int h; } In;
+typedef struct { int f; int g; In in; int v[2]; } S;
+S s; S ss[3];
+int f0() { return 1; }
+int f1(int u) { return u; }
+int f2(int u, int v) { return u; }
+int f3(int u, int v, int w) { return u; }
+)";
+
+static std::string classify_errors(Document& doc, std::string& sem)
+{
+    std::string syn;
+    for (auto& er : doc.get_errors()) {
+        if (er.msg.find("syntax_error") != std::string::npos || er.msg.find("$Unknown_symbol") != std::string::npos ||
+            er.msg.find("$Overflow") != std::string::npos || er.msg.find("$Comment_not_closed") != std::string::npos)
+            syn += (syn.empty() ? "" : " | ") + er.msg;
+        else
+            sem += (sem.empty() ? "" : " | ") + er.msg;
+    }
+    return syn;
+}
+
+static std::string in_context(const std::string& ctx, const std::string& text)
+{
+    std::string decl = CTX_DECLS, proc;
+    if (ctx == "decl") decl += "int zz = " + text + ";\n";
+    if (ctx == "stmt") decl += "int ff() { return " + text + "; }\n";
+    if (ctx == "arg") decl += "int gg() { return f1(" + text + "); }\n";
+    std::string inv = ctx == "inv" ? " { " + text + " }" : "";
+    std::string labels;
+    if (ctx == "guard") labels = " guard " + text + ";";
+    if (ctx == "update") labels = " assign " + text + ";";
+    if (ctx == "update2") labels = " assign a = 1, " + text + ";";
+    proc = "process Q() { state s0" + inv + "; init s0; trans s0 -> s0 {" + labels + " }; }\nsystem Q;\n";
+    std::string src = decl + proc;
+    Document doc;
+    DocumentBuilder builder(doc);
+    std::string sem;
+    try {
+        parse_XTA(src.c_str(), &builder, true);
+    } catch (std::exception& ex) {
+        return std::string("EXCEPTION ") + ex.what();
+    }
+    std::string syn = classify_errors(doc, sem);
+    if (!syn.empty()) return "REJECT " + syn;
+    expression_t e;
+    if (ctx == "decl") {
+        for (auto& v : doc.get_globals().variables) if (v.uid.get_name() == "zz") e = v.init;
+    } else if (ctx == "stmt" || ctx == "arg") {
+        for (auto& f : doc.get_globals().functions)
+            if (f.uid.get_name() == (ctx == "stmt" ? "ff" : "gg") && f.body)
+                for (auto& st : *f.body)
+                    if (auto* r = dynamic_cast<ReturnStatement*>(st.get())) e = r->value;
+        if (ctx == "arg" && !e.empty() && e.get_size() == 2) e = e[1];
+    } else {
+        auto& t = doc.get_templates().front();
+        if (ctx == "inv") e = t.locations.front().invariant;
+        else if (ctx == "guard") e = t.edges.front().guard;
+        else if (ctx == "update") e = t.edges.front().assign;
+        else if (ctx == "update2") { e = t.edges.front().assign; if (!e.empty() && e.get_kind() == COMMA) e = e[1]; else e = expression_t(); }
+    }
+    if (e.empty()) return "NOTREE";
+    return (sem.empty() ? "" : "SEMERR " + sem + " ") + ktree(e);
+}
+
 int main(int argc, char** argv)
 {
     Document doc;
@@ -63,6 +136,13 @@ int main(int argc, char** argv)
         if (line.size() < 2 || line[1] != '\t') { std::cout << "bad-op\n"; continue; }
         char op = line[0];
         std::string text = line.substr(2);
+        if (op == 'X') {
+            auto tab = text.find('\t');
+            std::string o = tab == std::string::npos ? "bad-op" : in_context(text.substr(0, tab), text.substr(tab + 1));
+            for (auto& ch : o) if (ch == '\n') ch = ' ';
+            std::cout << o << "\n";
+            continue;
+        }
         doc.clear_errors();
         doc.clear_warnings();
         std::string out;
